@@ -14,7 +14,9 @@ import (
 	"fmt"
 	"math/big"
 	"math/rand"
+	"os"
 	"strings"
+	"time"
 
 	"golang.org/x/tools/go/ssa"
 )
@@ -70,11 +72,13 @@ func (inst *Instance) fallbackVectors(P *Program, solverName string, timeoutMs i
 			return nil
 		}
 	}
+	inst.deadline = time.Now().Add(150 * time.Second)
+	inst.solverTimeouts = 0
 	rng := rand.New(rand.NewSource(int64(seed)*7919 + int64(len(inst.Harness))))
 	var out []map[string]interface{}
 	work := [][]Decision{nil}
 	paths := 0
-	for len(work) > 0 && paths < 48 && len(out) < 400 {
+	for len(work) > 0 && paths < 48 && len(out) < 1500 {
 		prefix := work[len(work)-1]
 		work = work[:len(work)-1]
 		paths++
@@ -83,10 +87,22 @@ func (inst *Instance) fallbackVectors(P *Program, solverName string, timeoutMs i
 			funcsSeen: map[string]bool{}, havoc: true}
 		end := x.runPath()
 		work = append(work, x.alts...)
+		if os.Getenv("VERIF_DEBUG") != "" {
+			fmt.Fprintf(os.Stderr, "fallback path %d: end=%s %s inputs=%d pc=%d alts=%d\n", paths, end.Kind, firstLine(end.Msg), len(x.inputs), len(x.pc), len(x.alts))
+		}
 		if end.Kind == "enginebug" || end.Kind == "infeasible" {
 			continue
 		}
-		out = append(out, x.diverseModels(rng, perPath)...)
+		func() {
+			defer func() {
+				if r := recover(); r != nil {
+					if _, ok := r.(pathEnd); !ok {
+						panic(r)
+					}
+				}
+			}()
+			out = append(out, x.diverseModels(rng, perPath)...)
+		}()
 	}
 	return out
 }
@@ -196,6 +212,36 @@ func (x *Exec) diverseModels(rng *rand.Rand, k int) []map[string]interface{} {
 			}
 		}
 	}
+	// sentences made of one repeated word: the longest / shortest word of the list (in bytes of its
+	// stored form), the first and the last entry. Pins go on the reference-side word indices; those the
+	// checksum determines are dropped from the end until the query is satisfiable.
+	if len(x.goldenIdx) > 0 {
+		words := goldenList(x.goldenIdxLang)
+		longest, shortest := 0, 0
+		for i, w := range words {
+			if len(w) > len(words[longest]) {
+				longest = i
+			}
+			if len(w) < len(words[shortest]) {
+				shortest = i
+			}
+		}
+		for _, k := range []int{longest, shortest, 0, 2047} {
+			var pins []*Term
+			for _, t := range x.goldenIdx {
+				pins = append(pins, Eq(t, BVi(int64(k), t.W)))
+			}
+			for len(pins) > 0 {
+				r, m := x.queryModel(pins)
+				if r == "sat" {
+					out = append(out, x.nativeValues(m))
+					break
+				}
+				pins = pins[:len(pins)-1]
+			}
+		}
+	}
+	out = append(out, x.bulkModels(rng, x.inst.bulkWitnesses())...)
 	for _, strat := range strategies[:k] {
 		var pins []*Term
 		for _, in := range x.inputs {
@@ -244,19 +290,49 @@ func (c *CheckRun) runFallback() {
 	if c.Cfg.Tier == "thorough" {
 		perPath = 12
 	}
+	total := 0
+	for _, inst := range c.Insts {
+		if inst.Inconclusive() && inst.Harness != "H_C12_pair" {
+			total++
+		}
+	}
+	if total == 0 {
+		return
+	}
+	// the native budget (about 30 000 runs) is shared evenly between the inconclusive instances
+	perInst := 30000 / total
+	bulk := 6000 / total
+	if bulk > 200 {
+		bulk = 200
+	}
+	if bulk < 8 {
+		bulk = 8
+	}
 	n := 0
 	for _, inst := range c.Insts {
 		if !inst.Inconclusive() || inst.Harness == "H_C12_pair" {
 			continue
 		}
+		inst.BulkWitnesses = bulk
 		n++
-		if n > 64 {
+		if n > 240 {
+			break
+		}
+		if len(vecs) > 30000 {
 			break
 		}
 		base := inst.fallbackVectors(c.P, c.Cfg.Solvers[0], c.Cfg.Timeout, c.Cfg.Seed, c.Stats[c.Cfg.Solvers[0]], perPath)
 		base = append(base, readerScripts(inst, base)...)
+		added := 0
 		for _, vals := range base {
 			all := append([]map[string]interface{}{vals}, spellingVariants(vals)...)
+			if added+len(all) > perInst && added > 0 {
+				all = all[:1]
+			}
+			if added >= perInst {
+				break
+			}
+			added += len(all)
 			for _, v := range all {
 				vecs = append(vecs, &Vector{Harness: inst.Harness, Args: inst.Args, Vals: v, Property: c.Spec.ID, Kind: "fallback-witness"})
 				owners = append(owners, inst)
@@ -265,6 +341,14 @@ func (c *CheckRun) runFallback() {
 	}
 	c.Extra["fallback_instances"] = n
 	c.Extra["fallback_witnesses_run_natively"] = len(vecs)
+	if os.Getenv("VERIF_DEBUG") != "" {
+		fmt.Fprintf(os.Stderr, "fallback: %d inconclusive instances, %d native witnesses\n", n, len(vecs))
+		for i, v := range vecs {
+			if i < 40 {
+				fmt.Fprintf(os.Stderr, "  vec %s %v %v\n", v.Harness, v.Args, v.Vals)
+			}
+		}
+	}
 	if len(vecs) == 0 {
 		return
 	}
@@ -314,7 +398,6 @@ func (c *CheckRun) runFallback() {
 	c.Extra["fallback_violations"] = nviol
 }
 
-
 // readerScripts: when the ordinary exploration met the nondeterministic reader (inputs k<i>, kind<i>)
 // but the reference-side re-execution cannot (the implementation is stubbed there), its behaviour
 // is enumerated directly over the property's own quantifier: every failure point, every failure
@@ -358,6 +441,81 @@ func readerScripts(inst *Instance, base []map[string]interface{}) []map[string]i
 					out = append(out, mk([]int{first, total - first, 0, 0}, []int{0, kind, 1, 1}))
 				}
 			}
+		}
+	}
+	return out
+}
+
+func (inst *Instance) bulkWitnesses() int {
+	if inst.BulkWitnesses > 0 {
+		return inst.BulkWitnesses
+	}
+	return 200
+}
+
+// bulkModels: many cheap candidate assignments (random, with boundary bytes), each *checked against the
+// path condition by evaluation* (real SHA-256 for the uninterpreted H) instead of a solver call; only
+// assignments that satisfy every constraint are kept. Used where the reference-side constraints are weak
+// (arbitrary entropy, arbitrary tokens), so that rare inputs are met by volume.
+func (x *Exec) bulkModels(rng *rand.Rand, n int) []map[string]interface{} {
+	var out []map[string]interface{}
+	cons := append(append([]*Term{}, x.pc...), x.lateConstraints()...)
+	cons = append(cons, x.hfacts...)
+	uf := func(name string, args []*big.Int) *big.Int {
+		if name == "H" && len(args) == 2 {
+			if d, ok := realH(args[0], args[1]); ok {
+				return d
+			}
+		}
+		return big.NewInt(0)
+	}
+	for it := 0; it < n; it++ {
+		env := map[string]*big.Int{}
+		m := map[int]*big.Int{}
+		mode := rng.Intn(4)
+		for _, in := range x.inputs {
+			for _, t := range in.Terms {
+				if t.Op != "var" {
+					continue
+				}
+				var v *big.Int
+				switch in.Kind {
+				case "bytes":
+					switch {
+					case mode == 0 && rng.Intn(3) == 0:
+						v = big.NewInt(0)
+					case mode == 1 && rng.Intn(3) == 0:
+						v = big.NewInt(255)
+					default:
+						v = big.NewInt(int64(rng.Intn(256)))
+					}
+				case "token":
+					if rng.Intn(12) == 0 {
+						v = big.NewInt(int64(UnkBase + rng.Intn(600)))
+					} else {
+						v = big.NewInt(int64(rng.Intn(2048)))
+					}
+				case "int":
+					v = big.NewInt(int64(rng.Intn(2048)))
+				case "bool", "env":
+					v = big.NewInt(int64(rng.Intn(2)))
+				default:
+					continue
+				}
+				env[t.Name] = v
+				m[t.id] = v
+			}
+		}
+		ok := true
+		memo := map[int]*big.Int{}
+		for _, c := range cons {
+			if Eval(x.simp(c), env, uf, memo).Sign() == 0 {
+				ok = false
+				break
+			}
+		}
+		if ok {
+			out = append(out, x.nativeValues(m))
 		}
 	}
 	return out
